@@ -274,6 +274,9 @@ pub struct Mon<K: El, V: El> {
     pub old_removed: bool,
     /// judge object lifetimes only (see `step_ledger_only`)
     pub ledger_only: bool,
+    /// the destination of a clone_from in progress: if the call is interrupted by a panic it is
+    /// still here afterwards and can be examined (C07)
+    pub limbo: Option<HashMap<K, V, Bh>>,
     /// number of new keys the immediately preceding capacity call (reserve / successful
     /// try_reserve) promised to take without reallocation; consumed by the probe (C10)
     pub promised: usize,
@@ -313,6 +316,7 @@ impl<K: El, V: El> Mon<K, V> {
             stats: Stats::default(),
             transcript: None,
             promised: 0,
+            limbo: None,
             since_growth: None,
             expected_r: expected_r(),
             focus: "",
